@@ -1488,7 +1488,9 @@ class Dosini(object):
                 platform_files = []
 
             if is_instance is False:
-                variable_files = [os.path.join(output_dir, 'variables.d', '%s.conf' % platform) for platform in flowir[FlowIR.FieldPlatforms]]
+                # VV: also remove the variable files of platforms that the description no longer has (just like the
+                #     experiment.<platform>.conf files above), otherwise loading the package brings those platforms back
+                variable_files = glob.glob(os.path.join(output_dir, 'variables.d', '*.conf'))
             else:
                 variable_files = []
 
